@@ -148,10 +148,18 @@ def check_distribution(dist, u_full, n_real, occ_in_real, trunc=1e-9):
     total = sum(got.values())
     if not (1 - allow <= total <= 1 + 1e-9):
         problems.append(f"total: probabilities sum to {total:.12f} ({k_full} full output patterns)")
+    n_loss = n_tot - n_real
+    vac = tuple([0] * n_real)
     for key in set(ref) | set(got):
         r, g = ref.get(key, 0.0), got.get(key, 0.0)
-        if abs(r - g) > allow:
-            problems.append(f"value: p({list(key)}) = {g:.12f}, reference {r:.12f}")
+        # per entry: one dropped full state (<= 1e-9) per loss-mode pattern it sums over; the all-vacuum pattern of a
+        # lossy circuit may additionally absorb everything that was dropped elsewhere
+        if key == vac and n_loss:
+            a_key = allow
+        else:
+            a_key = trunc * boson.n_fock(n_loss, max(n_in - sum(key), 0)) + 1e-12 if n_loss else trunc + 1e-12
+        if abs(r - g) > a_key:
+            problems.append(f"value: p({list(key)}) = {g:.12f}, reference {r:.12f} (allowed deviation {a_key:.3g})")
             break
     return problems
 
